@@ -370,6 +370,10 @@ def selftest(pid):
         raise Infra("no seeded change for %s" % pid)
     ok = True
     for patch in patches:
+        meta_file = os.path.join(os.path.dirname(patch), "meta.json")
+        if os.path.exists(meta_file) and json.load(open(meta_file)).get("not_claimed_reason"):
+            log("selftest %s with %s: skipped, recorded as outside the claimed domain (see its meta.json)" % (pid, os.path.relpath(patch, VERIF)))
+            continue
         wt = tempfile.mkdtemp(prefix="selftest-")
         shutil.rmtree(wt)
         out = tempfile.mkdtemp(prefix="selftest-out-")
